@@ -96,8 +96,17 @@ def _frame_name(tb):
         fn = fs.f_code.co_filename
         if "/torchtree/" in fn:
             q = getattr(fs.f_code, "co_qualname", fs.f_code.co_name)
+            if q.endswith("__getattr__") or q.endswith("from_json_safe") or "wrapper" in q:
+                continue
             best = fn.split("/torchtree/")[-1] + ":" + q
     return best or "?"
+
+
+def _msg(e):
+    """exception message with numbers abstracted (sizes vary with the configuration)"""
+    import re as _re
+    m = _re.sub(r"[0-9]+(\.[0-9]+)?", "N", str(e))
+    return _re.sub(r"[^A-Za-z0-9_.'`]+", "-", m)[:70].strip("-")
 
 
 def run_cli(argv):
@@ -170,7 +179,8 @@ def load_config(data, run=False):
         root = LOG[0] if LOG else str(e)
         return dic, dict(kind="JSONParseError", root=root, outer=str(e))
     except BaseException as e:
-        return dic, dict(kind=type(e).__name__, root=str(e)[:200], site=_frame_name(e.__traceback__))
+        return dic, dict(kind=type(e).__name__, root=str(e)[:200], site=_frame_name(e.__traceback__),
+                         nmsg=_msg(e))
     return dic, None
 
 
@@ -306,12 +316,13 @@ def check_loaded(j0, dic, cfg):
             v = o()
             vals[name] = fnum(v.sum())
         except BaseException as e:
-            vals[name] = dict(error=type(e).__name__, site=_frame_name(e.__traceback__), msg=str(e)[:160])
+            vals[name] = dict(error=type(e).__name__, site=_frame_name(e.__traceback__), msg=str(e)[:160],
+                              nmsg=_msg(e))
     res["values"] = vals
     # --- gradient of the target wrt what is moved
     grads = {}
     tname = targets[0] if targets else ("joint.jacobian" if "joint.jacobian" in dic else "joint")
-    if isinstance(vals.get(tname), (float, str)):
+    if isinstance(vals.get(tname), (float, str)) and moved and targets:
         params = [get(m) for m in moved if get(m) is not None]
         try:
             for p in params:
@@ -326,7 +337,7 @@ def check_loaded(j0, dic, cfg):
                     grads[p.id] = "finite" if bool(torch.isfinite(g).all()) else "nonfinite"
         except BaseException as e:
             grads["__error__"] = dict(error=type(e).__name__, site=_frame_name(e.__traceback__),
-                                      msg=str(e)[:160])
+                                      msg=str(e)[:160], nmsg=_msg(e))
         finally:
             for p in params:
                 try:
@@ -419,6 +430,10 @@ def check_loaded(j0, dic, cfg):
                                  got=[fnum(x) for x in got.flatten()[:4]]))
         except BaseException as e:
             init.append(dict(id=id_, status="error", msg=f"{type(e).__name__}: {str(e)[:100]}"))
+    for it in init:
+        o = get("coalescent.theta" if it["id"] == "@theta" else ("tree" if it["id"] == "@tree.height" else it["id"]))
+        tr = getattr(o, "transform", None)
+        it["via"] = type(tr).__name__ if tr is not None else type(o).__name__
     res["init"] = init
     res["n_constrained"] = len(CONSTRAINED_SNAPSHOT)
     return res
@@ -449,6 +464,13 @@ def short_run(j0, tmp):
                         o["convergence"]["samples"] = [2, 2]
             elif t == "Sampler":
                 o["samples"] = 2
+            elif t == "LeapfrogIntegrator":
+                o["step_size"] = 1e-6
+                o["steps"] = min(int(o.get("steps", 2)), 2)
+            elif t == "SlidingWindowOperator":
+                o["width"] = 1e-6
+            if t == "Optimizer" and isinstance(o.get("options"), dict) and "lr" in o["options"]:
+                o["options"]["lr"] = 1e-9
             if "every" in o and t in ("Logger", "TreeLogger"):
                 o["every"] = 1
             for k in ("file_name", "checkpoint"):
@@ -463,6 +485,13 @@ def short_run(j0, tmp):
         _torch.manual_seed(1)
         with contextlib.redirect_stdout(io.StringIO()), contextlib.redirect_stderr(io.StringIO()):
             dic, err = load_config(j, run=True)
+        if err is not None and err["kind"] == "ZeroDivisionError":
+            # MCMC.run's closing summary divides by the number of times each operator was picked:
+            # with 2 iterations and several operators some were never picked.  Not a C19 matter.
+            for o in dict.values(dic):
+                ops = getattr(o, "_operators", None)
+                if ops and any(op._accept + op._reject == 0 for op in ops):
+                    return None
         return err
     finally:
         os.chdir(cwd)
@@ -498,7 +527,10 @@ def run_one(cfg):
         except BaseException as e:
             rec["checks"] = dict(harness_error=f"{type(e).__name__}: {e} @ "
                                                f"{traceback.format_tb(e.__traceback__)[-1][:200]}")
-        if cfg.get("run", True):
+        chk = rec["checks"]
+        healthy = all(isinstance(v, float) for v in chk.get("values", {}).values()) and \
+            "__error__" not in chk.get("grads", {}) and "harness_error" not in chk
+        if cfg.get("run", True) and healthy:
             tmp = tempfile.mkdtemp(prefix="c19run_")
             try:
                 rec["run_error"] = short_run(j0, tmp)
@@ -1043,7 +1075,7 @@ def judge(rec, m):
             add(f"C19:load:{_norm(root)}", f"emitted configuration is rejected by the loader: {root}",
                 load_error=err)
         else:
-            add(f"C19:construct:{err['kind']}:{err.get('site', '?')}",
+            add(f"C19:construct:{wty}:{err['kind']}:{err.get('site', '?')}:{err.get('nmsg', '')}",
                 f"object `{where}' ({wty}) of the emitted configuration fails to construct: "
                 f"{err['kind']}: {err['root']}", load_error=err)
     if m is not None:
@@ -1066,7 +1098,7 @@ def judge(rec, m):
                 model=ev[max(0, i - 3):i + 3], real=trace[max(0, i - 3):i + 3])
         if err is None and not m["wf"]:
             if m["dead"]:
-                for d in m["dead"]:
+                for d in m["dead"][:1]:      # nested dead objects are consequences of the first
                     add(f"C19:dead-object:{objs_types.get(d, '?')}:{d}",
                         f"emitted object `{d}' ({objs_types.get(d, '?')}) sits under a key the loader "
                         f"never reads: it is never constructed, the option that produced it has no effect")
@@ -1089,7 +1121,7 @@ def judge(rec, m):
     for name, v in vals.items():
         if isinstance(v, dict):
             dens_ok = False
-            add(f"C19:density:raises:{v['error']}:{v['site']}",
+            add(f"C19:density:raises:{v['error']}:{v['site']}:{v.get('nmsg', '')}",
                 f"`{name}' of the emitted configuration cannot be evaluated at the initial point: "
                 f"{v['error']} in {v['site']}: {v.get('msg', '')}")
         elif isinstance(v, str):
@@ -1097,7 +1129,7 @@ def judge(rec, m):
             add(f"C19:density:nonfinite:{name}:{sub}", f"`{name}' is {v} at the initial point")
     g = ch.get("grads", {})
     if "__error__" in g:
-        add(f"C19:gradient:raises:{g['__error__']['error']}:{g['__error__']['site']}",
+        add(f"C19:gradient:raises:{g['__error__']['error']}:{g['__error__']['site']}:{g['__error__'].get('nmsg', '')}",
             f"gradient of the target cannot be computed: {g['__error__']}")
     else:
         bad = sorted(k for k, v in g.items() if v == "nonfinite")
@@ -1106,7 +1138,7 @@ def judge(rec, m):
                                                f"initial point")
     # ---- initial values
     for it in ch.get("init", []):
-        add(f"C19:init:{it['status']}:{it['id']}",
+        add(f"C19:init:{it['status']}:{it['id']}:{it.get('via', '')}",
             f"initial value of `{it['id']}' after loading differs from the requested one: {it}")
     # ---- Jacobians
     if m is not None:
@@ -1183,11 +1215,19 @@ def judge(rec, m):
     if re_ is not None:
         if re_["kind"] == "JSONParseError":
             add(f"C19:run:{sub}:load:{_norm(re_['root'])}", f"2-iteration run failed to load: {re_}")
+        elif re_["kind"] in NUMERIC_RUN_FAILURES:
+            rec["numeric_run_failure"] = f"{re_['kind']}@{re_.get('site')}"
         else:
-            add(f"C19:run:{sub}:{re_['kind']}:{re_.get('site', '?')}",
+            add(f"C19:run:{sub}:{re_['kind']}:{re_.get('site', '?')}:{re_.get('nmsg', '')}",
                 f"2-iteration run of the emitted {sub} configuration raises {re_['kind']}: "
                 f"{re_['root']} in {re_.get('site')}")
     return out
+
+
+# failures of the 2-iteration run that are numerical accidents of taking a step (validation of a
+# distribution's arguments, eigendecomposition not converging), not structural defects of the
+# emitted configuration: counted, not reported
+NUMERIC_RUN_FAILURES = ("ValueError", "_LinAlgError", "FloatingPointError", "ZeroDivisionError")
 
 
 def _norm(s):
